@@ -1,92 +1,113 @@
 #!/usr/bin/env python3
-"""Detection matrix: apply every seeded change under /verif/seeded to /repo (one at a time, always undone), run the check of its
-property (quick tier; thorough for the ones listed in meta.json "needs_tier"), and record the verdict.
+"""Detection matrix: every seeded change under /verif/seeded is applied to its own scratch worktree of /repo HEAD (under
+/tmp, removed afterwards; /repo itself is never touched), the check of its property is run against that tree
+(VERIF_REPO / VERIF_OUT, so the evidence of the real tree is not overwritten), and the verdict is recorded.
 
-usage: tools/matrix.py [--only C05,C18] [--tier quick|thorough] [--out seeded/MATRIX.json]
+usage: tools/matrix.py [--only C05,C18] [--tier quick|thorough] [-j 4] [--out seeded/MATRIX.json]
 
-Also confirms, per seed, that the patch still applies to /repo HEAD and (where a demo exists) that the demo passes on the clean
-tree.  Never leaves /repo patched: the working tree is restored in a finally block and verified clean at the end.
+Per seed it also confirms that the patch still applies to /repo HEAD, that the demo (when there is one) passes on the clean
+tree and fails with the patch.
 """
 import argparse
+import concurrent.futures as cf
 import json
 import os
+import shutil
 import subprocess
 import sys
 import time
 
 ROOT = os.path.dirname(os.path.dirname(os.path.abspath(__file__)))
 REPO = "/repo"
+SCRATCH = "/tmp/verif_matrix"
 
 
-def sh(cmd, timeout=None, cwd=None):
+def sh(cmd, timeout=None, cwd=None, env=None):
     try:
-        p = subprocess.run(cmd, shell=True, capture_output=True, text=True, timeout=timeout, cwd=cwd)
+        p = subprocess.run(cmd, shell=True, capture_output=True, text=True, timeout=timeout, cwd=cwd, env=env)
         return p.returncode, p.stdout + p.stderr
-    except subprocess.TimeoutExpired as e:
-        return 124, (e.stdout or b"").decode() if isinstance(e.stdout, bytes) else (e.stdout or "")
+    except subprocess.TimeoutExpired:
+        return 124, ""
 
 
-def clean():
-    rc, out = sh("git status --porcelain", cwd=REPO)
-    return out.strip() == ""
+def one(args):
+    name, tier_default, timeout = args
+    d = os.path.join(ROOT, "seeded", name)
+    meta = json.load(open(os.path.join(d, "meta.json")))
+    pid = meta["property"]
+    checks = meta.get("checked_by", [pid])
+    tier = meta.get("needs_tier", tier_default)
+    row = {"seed": name, "property": pid, "kind": meta.get("kind", "seeded"), "tier": tier, "checks": {}}
+    wt = os.path.join(SCRATCH, name)
+    out = os.path.join(SCRATCH, name + "_out")
+    sh(f"git worktree remove --force {wt}", cwd=REPO)
+    shutil.rmtree(wt, ignore_errors=True)
+    rc, o = sh(f"git worktree add -q --detach {wt} HEAD", cwd=REPO)
+    if rc != 0:
+        row["verdict"] = "HARNESS-ERROR worktree: " + o[-200:]
+        return row
+    try:
+        demo = os.path.join(d, "demo.py")
+        if os.path.exists(demo):
+            row["demo_clean_exit"] = sh(f"/venv/bin/python {demo}", cwd=wt, timeout=600)[0]
+        rc, o = sh(f"git apply {os.path.join(d, 'patch.diff')}", cwd=wt)
+        row["applies"] = rc == 0
+        if rc != 0:
+            row["verdict"] = "PATCH-DOES-NOT-APPLY"
+            return row
+        if os.path.exists(demo):
+            row["demo_patched_exit"] = sh(f"/venv/bin/python {demo}", cwd=wt, timeout=600)[0]
+        env = dict(os.environ, VERIF_REPO=wt, VERIF_OUT=out)
+        caught = False
+        for c in checks:
+            t = time.time()
+            rc, o = sh(f"{ROOT}/bin/check {c} --tier {tier}", timeout=timeout, env=env)
+            viol = [l for l in o.splitlines() if l.startswith("VIOLATION")]
+            row["checks"][c] = {"exit": rc, "violations": len(viol), "wall_s": round(time.time() - t, 1)}
+            caught = caught or (rc == 1 and bool(viol))
+        row["verdict"] = "caught" if caught else "MISSED"
+        return row
+    finally:
+        sh(f"git worktree remove --force {wt}", cwd=REPO)
+        shutil.rmtree(wt, ignore_errors=True)
+        shutil.rmtree(out, ignore_errors=True)
 
 
 def main():
     ap = argparse.ArgumentParser()
     ap.add_argument("--only", default="")
+    ap.add_argument("--seeds", default="", help="comma separated seed directory names")
     ap.add_argument("--tier", default="quick")
+    ap.add_argument("-j", type=int, default=4)
     ap.add_argument("--out", default=os.path.join(ROOT, "seeded", "MATRIX.json"))
-    ap.add_argument("--timeout", type=int, default=1500)
+    ap.add_argument("--timeout", type=int, default=3000)
     a = ap.parse_args()
     only = set(x for x in a.only.split(",") if x)
-    if not clean():
-        print("/repo not clean", file=sys.stderr)
-        return 9
+    seeds = set(x for x in a.seeds.split(",") if x)
+    os.makedirs(SCRATCH, exist_ok=True)
     head = sh("git rev-parse --short HEAD", cwd=REPO)[1].strip()
-    rows = []
-    if os.path.exists(a.out):
-        old = json.load(open(a.out))
-        rows = [r for r in old.get("rows", []) if only and r["seed"].split("-")[0].replace("revert", "") not in only and r["property"] not in only]
+    names = []
     for name in sorted(os.listdir(os.path.join(ROOT, "seeded"))):
         d = os.path.join(ROOT, "seeded", name)
         if not os.path.isfile(os.path.join(d, "patch.diff")):
             continue
-        meta = json.load(open(os.path.join(d, "meta.json")))
-        pid = meta["property"]
-        if only and pid not in only:
+        pid = json.load(open(os.path.join(d, "meta.json")))["property"]
+        if (only and pid not in only) or (seeds and name not in seeds):
             continue
-        checks = meta.get("checked_by", [pid])
-        tier = meta.get("needs_tier", a.tier)
-        row = {"seed": name, "property": pid, "kind": meta.get("kind", "seeded"), "tier": tier, "checks": {}}
-        patch = os.path.join(d, "patch.diff")
-        rc, out = sh(f"git apply --check {patch}", cwd=REPO)
-        row["applies"] = rc == 0
-        if rc != 0:
-            row["verdict"] = "PATCH-DOES-NOT-APPLY"
+        names.append(name)
+    rows = []
+    if os.path.exists(a.out):
+        rows = [r for r in json.load(open(a.out)).get("rows", []) if r["seed"] not in names]
+    with cf.ThreadPoolExecutor(max_workers=a.j) as ex:
+        for row in ex.map(one, [(n, a.tier, a.timeout) for n in names]):
             rows.append(row)
-            print(name, row["verdict"], flush=True)
-            continue
-        try:
-            sh(f"git apply {patch}", cwd=REPO)
-            caught = False
-            for c in checks:
-                t = time.time()
-                rc, out = sh(f"{ROOT}/bin/check {c} --tier {tier}", timeout=a.timeout)
-                viol = [l for l in out.splitlines() if l.startswith("VIOLATION")]
-                row["checks"][c] = {"exit": rc, "violations": len(viol), "wall_s": round(time.time() - t, 1)}
-                caught = caught or (rc == 1 and bool(viol))
-            row["verdict"] = "caught" if caught else "MISSED"
-        finally:
-            sh("git checkout -- .", cwd=REPO)
-        rows.append(row)
-        print(name, row["verdict"], row["checks"], flush=True)
-    rows.sort(key=lambda r: r["seed"])
-    json.dump({"repo_head": head, "generated": time.strftime("%Y-%m-%dT%H:%M:%SZ", time.gmtime()), "rows": rows}, open(a.out, "w"), indent=1)
+            print(row["seed"], row["verdict"], row.get("checks"), "demo", row.get("demo_clean_exit"), row.get("demo_patched_exit"), flush=True)
+            rows.sort(key=lambda r: r["seed"])
+            json.dump({"repo_head": head, "generated": time.strftime("%Y-%m-%dT%H:%M:%SZ", time.gmtime()), "rows": rows}, open(a.out, "w"), indent=1)
+    sh("git worktree prune", cwd=REPO)
+    shutil.rmtree(SCRATCH, ignore_errors=True)
     missed = [r["seed"] for r in rows if r["verdict"] != "caught"]
-    print(f"{len(rows)} seeds, {len(rows) - len(missed)} caught; not caught: {missed}")
-    if not clean():
-        print("/repo NOT CLEAN after the run", file=sys.stderr)
-        return 9
+    print(f"{len(rows)} seeds in the matrix, {len(rows) - len(missed)} caught; not caught: {missed}")
     return 0
 
 
